@@ -90,7 +90,9 @@ func (e *Engine) installAutoLemmas(x *Exec, st *State) {
 			e2.info = e.clauseInfo[c]
 			post = append(post, x.svTerm(e2.eval(c.Expr)))
 		}
-		x.w.axioms = append(x.w.axioms, Forall(vars, Imp(And(pre...), And(post...))))
+		lt := Forall(vars, Imp(And(pre...), And(post...)))
+		lt.Lemma = true
+		x.w.axioms = append(x.w.axioms, lt)
 		x.notes = append(x.notes, "uses lemma "+con.Key+" (proved as its own unit)")
 	}
 }
@@ -325,6 +327,7 @@ func (x *Exec) frameObligations(st *State, con *Contract, pos token.Pos) {
 func (e *Engine) solveUnit(w *World, res *UnitResult, workdir string, timeoutS int, all bool) {
 	type job struct {
 		script string
+		qf     string
 		rich   string
 		plain  string
 		file   string
@@ -342,12 +345,18 @@ func (e *Engine) solveUnit(w *World, res *UnitResult, workdir string, timeoutS i
 			o.Status = "skipped"
 			continue
 		}
-		var script, plain, rich string
+		var script, plain, rich, qf string
 		if o.Kind == "vacuity" {
 			script = w.Script(o.Assume, nil, false)
 		} else {
 			as, g := instantiate(w, o.Assume, o.Goal)
 			script = w.Script(as, g, true)
+			if gs := g.String(); !strings.Contains(gs, "(forall ") && !strings.Contains(gs, "(exists ") {
+				qf = w.ScriptQF(as, g)
+				if qf == script {
+					qf = ""
+				}
+			}
 			plain = w.Script(o.Assume, o.Goal, true)
 			if plain == script {
 				plain = ""
@@ -361,7 +370,7 @@ func (e *Engine) solveUnit(w *World, res *UnitResult, workdir string, timeoutS i
 		}
 		j := jobs[script]
 		if j == nil {
-			j = &job{script: script, rich: rich, plain: plain, file: filepath.Join(workdir, fmt.Sprintf("%s_%04d.smt2", smtName(res.Key), i)), vac: o.Kind == "vacuity"}
+			j = &job{script: script, qf: qf, rich: rich, plain: plain, file: filepath.Join(workdir, fmt.Sprintf("%s_%04d.smt2", smtName(res.Key), i)), vac: o.Kind == "vacuity"}
 			jobs[script] = j
 			order = append(order, j)
 		}
@@ -374,7 +383,19 @@ func (e *Engine) solveUnit(w *World, res *UnitResult, workdir string, timeoutS i
 		go func(j *job) {
 			defer wg.Done()
 			t := timeoutS
-			r := solve(j.script, j.file, t, all && !j.vac, nil)
+			var r solveResult
+			if j.qf != "" {
+				// stage 0: ground premises only, one solver, short budget
+				r = solve(j.qf, strings.TrimSuffix(j.file, ".smt2")+"_qf.smt2", 3, false, []string{"z3-new"})
+				if r.status != "unsat" {
+					r = solveResult{status: "unknown"}
+				}
+			}
+			if r.status != "unsat" {
+				r0 := solve(j.script, j.file, t, all && !j.vac, nil)
+				r0.secs += r.secs
+				r = r0
+			}
 			if r.status != "unsat" && j.rich != "" {
 				r1 := solve(j.rich, strings.TrimSuffix(j.file, ".smt2")+"_rich.smt2", t, false, nil)
 				if r1.status == "unsat" {
